@@ -124,6 +124,12 @@ def t_reshape_own(b, cur, cs):
 
 def t_expand_own(b, cur, cs):
     rng = b.rng
+    if rng.random() < 0.3 and all(d is not None for d in cs):
+        # constant target that keeps every dim through a 1 (or the static dim itself), optionally rank-extending by leading 1s
+        k = rng.choice([0, 1, 1, 2]) if len(cs) <= 2 else rng.choice([0, 1])
+        tl = [1] * k + [(d if is_static(d) and rng.random() < 0.6 else 1) for d in cs]
+        b.meta.setdefault("expand_ones", []).append(k)
+        return b.node("Expand", [cur, b.ci64(tl)]), [1] * k + list(cs)
     if all(is_static(d) for d in cs) and rng.random() < 0.4:
         t = b.ci64(list(cs))
     elif rng.random() < 0.5:
@@ -497,10 +503,163 @@ def t_noop_arith(b, cur, cs):
     return cur, cs
 
 
+def t_reshape_reshape(b, cur, cs):
+    """Reshape(Reshape(cur, s0), s1) with constant targets (the `ReshapeReshape` pattern): s1 uses 0 (copy the dim of the
+    *intermediate* tensor), -1, allowzero, and the outer output optionally carries a truthful annotation.  Both Reshapes
+    are valid for every binding (a -1 never sits beside a dim that can be 0)."""
+    rng = b.rng
+    r = len(cs)
+    syms = [d for d in cs if not is_static(d)]
+    q = prod_dims([d for d in cs if is_static(d)])
+    inner = ["flat", "copy"]
+    if len(syms) == 1 and q > 0:
+        inner += ["sym_q", "q_sym"]
+    w = rng.choice(inner)
+    if w == "flat":
+        s0, mid = [-1], [q if not syms else (syms[0] if (len(syms) == 1 and q == 1) else None)]
+    elif w == "copy":
+        s0, mid = [0] * r, list(cs)
+    elif w == "sym_q":
+        s0, mid = [-1, q], [syms[0], q]
+    else:
+        s0, mid = [q, -1], [q, syms[0]]
+    outer = [("neg", [-1], [prod_dims(mid) if all(is_static(d) for d in mid) else (mid[0] if len(mid) == 1 else None)])]
+    if len(mid) == 1:
+        outer += [("zero", [0], list(mid)), ("zero_one", [0, 1], [mid[0], 1]), ("one_neg", [1, -1], [1, mid[0]]),
+                  ("one_zero_via_neg", [-1, 1], [mid[0], 1])]
+    if w == "sym_q":
+        outer += [("zero_q", [0, q], list(mid)), ("neg_q", [-1, q], list(mid)), ("zero_q", [0, q], list(mid))]
+    if w == "q_sym":
+        outer += [("q_zero", [q, 0], list(mid)), ("q_neg", [q, -1], list(mid)), ("q_zero", [0, 0], list(mid))]
+    if w == "copy" and r >= 2 and is_static(cs[0]) and cs[0] > 0:
+        rest = cs[1:]
+        outer += [("zero_neg", [0, -1], [cs[0], prod_dims(rest) if all(is_static(d) for d in rest) else (rest[0] if len(rest) == 1 else None)])] * 2
+    if w == "copy" and r >= 2:
+        outer += [("zeros", [0] * r, list(cs))]
+    if all(is_static(d) for d in mid):
+        outer += [("literal", [prod_dims(mid), 1], [prod_dims(mid), 1])]
+    name, s1, res = rng.choice(outer)
+    az = {}
+    if (0 not in s1 or (name == "literal")) and rng.random() < 0.4:
+        az = {"allowzero": 1}
+    if name == "literal" and prod_dims(mid) == 0:
+        az = {"allowzero": 1}
+    m = b.node("Reshape", [cur, b.ci64(s0)])
+    y = b.node("Reshape", [m, b.ci64(s1)], az)
+    if rng.random() < 0.6:
+        b.value_info.append((y, TensorProto.FLOAT, list(res)))
+    b.meta.setdefault("reshape_reshape", []).append((y, name, list(s0), list(s1)))
+    return y, list(res)
+
+
+def t_concat_empty_other_axis(b, cur, cs):
+    """Concat of operands that are all empty along an axis *other than* the concat axis (float[N,0] ++ float[M,0], axis 0):
+    nothing may be dropped, the concat-axis extent is the sum.  Observed through the result's shape (output + Shape)."""
+    rng = b.rng
+    r = rng.choice([2, 2, 3])
+    ax = rng.randrange(r)
+    zx = rng.choice([i for i in range(r) if i != ax])
+    base = [rng.choice(["N", "M", 2, 3]) for _ in range(r)]
+    base[zx] = 0
+    ops = []
+    for _ in range(rng.choice([2, 2, 3])):
+        shp = list(base)
+        shp[ax] = rng.choice(["N", "M", "B", 1, 2, 3]) if rng.random() < 0.93 else 0
+        ops.append(b.add_input(TensorProto.FLOAT, shp, "e"))
+    c = b.node("Concat", ops, {"axis": ax if rng.random() < 0.6 else ax - r})
+    b.outputs.append(c)
+    b.out_elem[c] = TensorProto.FLOAT
+    sh = b.node("Shape", [c])
+    b.outputs.append(sh)
+    b.out_elem[sh] = TensorProto.INT64
+    return cur, cs
+
+
+def t_if_siblings(b, cur, cs):
+    """If(cond) whose then/else subgraphs compute on the outer tensor, (mostly) reuse the same value names for tensors of
+    *different static dims*, and derive a Reshape target / an output from Shape of those tensors.  cond = (C < 2) for an
+    extra symbol C fed through an INT64 input, so the bindings exercise both branches."""
+    rng = b.rng
+    r = len(cs)
+    if r > 3:
+        return None
+    kin = b.add_input(TensorProto.INT64, [1], "k")
+    b.shape_feeds[kin] = ["C"]
+    b.extra_syms.add("C")
+    cond = b.node("Less", [b.node("Squeeze", [kin, b.ci64([0])]), _scalar_i64(b, 2)])
+    same = rng.random() < 0.75
+    stat_axes = [i for i, d in enumerate(cs) if is_static(d) and d > 0]
+    mode = rng.choice(["cat_axis", "stack"]) if stat_axes else "stack"
+    ax = rng.choice(stat_axes) if mode == "cat_axis" else r
+    mults = rng.sample([1, 2, 3, 4], 2)
+    n_unary = rng.choice([0, 1, 1, 2])
+    way = rng.choice(["shape_start", "gather", "slice"])
+    ret = rng.choice(["reshape", "dim", "both"])
+    ifc = b.meta.get("if_count", 0)
+    graphs = []
+    for j, k in enumerate(mults):
+        sfx = "" if same else f"_{j}"
+        pre = f"sib{ifc}"
+
+        def nm(base, sfx=sfx, pre=pre):
+            return f"{pre}_{base}{sfx}"
+
+        nodes = []
+        if mode == "stack":
+            nodes.append(helper.make_node("Unsqueeze", [cur, nm("axr")], [nm("u")]))
+            nodes.insert(0, helper.make_node("Constant", [], [nm("axr")], value=numpy_helper.from_array(np.array([r], dtype=np.int64), "v")))
+            src, rank_h = nm("u"), r + 1
+        else:
+            src, rank_h = cur, r
+        nodes.append(helper.make_node("Concat", [src] * k, [nm("t")], axis=ax if rng.random() < 0.5 else ax - rank_h))
+        h = nm("t")
+        for q in range(n_unary):
+            nodes.append(helper.make_node(rng.choice(["Relu", "Neg", "Abs", "Identity"]), [h], [nm(f"a{q}")]))
+            h = nm(f"a{q}")
+        if way == "shape_start":
+            nodes.append(helper.make_node("Shape", [h], [nm("d")], start=ax - rank_h, **({} if ax == rank_h - 1 else {"end": ax + 1 - rank_h})))
+        elif way == "gather":
+            nodes.append(helper.make_node("Shape", [h], [nm("sh")]))
+            nodes.append(helper.make_node("Constant", [], [nm("gi")], value=numpy_helper.from_array(np.array([ax], dtype=np.int64), "v")))
+            nodes.append(helper.make_node("Gather", [nm("sh"), nm("gi")], [nm("d")], axis=0))
+        else:
+            nodes.append(helper.make_node("Shape", [h], [nm("sh")]))
+            nodes.append(helper.make_node("Constant", [], [nm("s0")], value=numpy_helper.from_array(np.array([ax], dtype=np.int64), "v")))
+            nodes.append(helper.make_node("Constant", [], [nm("s1")], value=numpy_helper.from_array(np.array([ax + 1], dtype=np.int64), "v")))
+            nodes.append(helper.make_node("Slice", [nm("sh"), nm("s0"), nm("s1")], [nm("d")]))
+        outs = []
+        if ret in ("reshape", "both"):
+            # move the multiplied axis last, then [-1, that dim]: valid for every binding (the dim is a positive static)
+            perm = [i for i in range(rank_h) if i != ax] + [ax]
+            nodes.append(helper.make_node("Transpose", [h], [nm("tr")], perm=perm))
+            nodes.append(helper.make_node("Constant", [], [nm("m1")], value=numpy_helper.from_array(np.array([-1], dtype=np.int64), "v")))
+            nodes.append(helper.make_node("Concat", [nm("m1"), nm("d")], [nm("tg")], axis=0))
+            nodes.append(helper.make_node("Reshape", [nm("tr"), nm("tg")], [nm("y")]))
+            outs.append(helper.make_value_info(nm("y"), helper.make_tensor_type_proto(TensorProto.FLOAT, None)))
+        if ret in ("dim", "both"):
+            nodes.append(helper.make_node("Identity", [nm("d")], [nm("dd")]))
+            outs.append(helper.make_value_info(nm("dd"), helper.make_tensor_type_proto(TensorProto.INT64, None)))
+        graphs.append(helper.make_graph(nodes, f"br{j}_{pre}", [], outs))
+    b.meta["if_count"] = b.meta.get("if_count", 0) + 1
+    onames = [b.fresh("ifo") for _ in graphs[0].output]
+    b.nodes.append(helper.make_node("If", [cond], onames, name=b.fresh("n_If"), then_branch=graphs[0], else_branch=graphs[1]))
+    for o, vi_ in zip(onames, graphs[0].output):
+        b.outputs.append(o)
+        b.out_elem[o] = vi_.type.tensor_type.elem_type
+    b.meta.setdefault("if_siblings", []).append({"same_names": same, "mode": mode, "mults": mults, "unary": n_unary})
+    return cur, cs
+
+
+def _scalar_i64(b, v):
+    name = b.fresh("c")
+    b.inits.append(numpy_helper.from_array(np.array(v, dtype=np.int64), name))
+    return name
+
+
 TEMPLATES = [
     (t_reshape_own, 3), (t_expand_own, 3), (t_pieces_reshape, 4), (t_abs_chain, 3), (t_size, 1),
     (t_flatten, 2), (t_slice, 2), (t_cast_out, 1), (t_squeeze_piece, 2), (t_identity, 1),
-    (t_concat_zero, 1), (t_materialize, 2), (t_expand_binary, 3), (t_shape_attr, 2), (t_scatter_all, 2), (t_scatter_static, 2), (t_noop_arith, 3),
+    (t_concat_zero, 1), (t_materialize, 2), (t_expand_binary, 3), (t_shape_attr, 2), (t_scatter_all, 2), (t_scatter_static, 2), (t_noop_arith, 3), (t_reshape_reshape, 3), (t_concat_empty_other_axis, 2), (t_if_siblings, 2),
 ]
 
 
